@@ -1,5 +1,6 @@
 import Whv.Lemmas.Verify
 import Whv.Driver.Vaa
+import Whv.Props.C05
 /-!
 # C06 — signature verification accepts exactly valid, ordered, in-set signatures
 
@@ -193,5 +194,91 @@ def rec3 : Bytes → Option Addr := fun s => match s with
   | [10] => some [0xA] | [12] => some [0xC] | _ => none
 example : verifySignatures rec3 [⟨0, [10]⟩, ⟨2, [12]⟩] [[0xA], [0xB], [0xC]] = true := by decide
 example : verifySignatures rec3 [⟨0, [10]⟩, ⟨1, [12]⟩] [[0xA], [0xB], [0xC]] = false := by decide
+
+/-! ## The wire path and guardian lists with repeated addresses -/
+
+private theorem marshal_split (v : Vaa) :
+    marshal v = (be 1 v.version ++ be 4 v.gsIndex) ++ (be 1 v.sigs.length ++ (sigsBytes v.sigs ++ serializeBody v.body)) := by
+  simp [marshal, List.append_assoc]
+
+/-- The Spec's reading of the wire (`Whv.Driver.VaaFam.wireSigs`, used by the driver on `wver` lines) is the signature list of the encoded VAA,
+in the order of the records. -/
+theorem wireSigs_marshal (v : Vaa) (hn : v.sigs.length ≤ 255) (hs : ∀ s ∈ v.sigs, s.WF) :
+    Whv.Driver.VaaFam.wireSigs (marshal v) = some v.sigs := by
+  unfold Whv.Driver.VaaFam.wireSigs
+  rw [marshal_split, takeN_append_of_length (by simp [be_length])]
+  simp only [takeN_append_of_length (be_length 1 _)]
+  rw [unbe_be1 (by omega), readSigs_sigsBytes _ _ hs]; rfl
+
+/-- … and of whatever the decoder accepts: the decoded list is the wire's list, record for record, in wire order. -/
+theorem wireSigs_of_unmarshal (wire : Bytes) (v : Vaa) (h : unmarshal wire = some v) : Whv.Driver.VaaFam.wireSigs wire = some v.sigs := by
+  obtain ⟨e, wf⟩ := Whv.C05.encode_decode wire v h
+  rw [← e]; exact wireSigs_marshal v wf.2.2.1 wf.2.2.2.1
+
+/-- The wire path (`Unmarshal` then `VerifySignatures`) accepts exactly the decodable strings whose signature records, in wire
+order, are `Valid`. -/
+theorem decodeVerify_iff (recover : Bytes → Option Addr) (wire : Bytes) (addrs : List Addr) :
+    Whv.Driver.VaaFam.decodeVerify recover wire addrs = true ↔
+      ∃ v sigs, unmarshal wire = some v ∧ Whv.Driver.VaaFam.wireSigs wire = some sigs ∧ Valid recover sigs addrs := by
+  unfold Whv.Driver.VaaFam.decodeVerify
+  cases h : unmarshal wire with
+  | none => simp
+  | some v =>
+    simp only [verify_iff, wireSigs_of_unmarshal wire v h]
+    constructor
+    · intro hv; exact ⟨v, v.sigs, rfl, rfl, hv⟩
+    · rintro ⟨_, sigs, _, e, hv⟩; cases e; exact hv
+
+/-- Serialized with two neighbouring signature records out of order (equal or descending indices), a VAA is rejected on the wire
+path even when every signature is individually valid: the decoder must not re-order what it reads. -/
+theorem wire_out_of_order_rejected (recover : Bytes → Option Addr) (v : Vaa) (h : v.WF) (addrs : List Addr)
+    (pre post : List Sig) (a b : Sig) (e : v.sigs = pre ++ a :: b :: post) (hab : b.idx ≤ a.idx) :
+    Whv.Driver.VaaFam.decodeVerify recover (marshal v) addrs = false := by
+  unfold Whv.Driver.VaaFam.decodeVerify
+  rw [Whv.C05.decode_encode v h]
+  apply Bool.eq_false_iff.mpr
+  intro hv
+  have h2 := ((verify_iff _ _ _).1 hv).2.1
+  rw [e, List.pairwise_append] at h2
+  have := (List.pairwise_cons.1 h2.2.1).1 b (by simp)
+  omega
+
+/-- A `Valid` signature list survives serialization: the wire path accepts it. -/
+theorem wire_valid_accepted (recover : Bytes → Option Addr) (v : Vaa) (h : v.WF) (addrs : List Addr)
+    (hv : Valid recover v.sigs addrs) : Whv.Driver.VaaFam.decodeVerify recover (marshal v) addrs = true := by
+  unfold Whv.Driver.VaaFam.decodeVerify
+  rw [Whv.C05.decode_encode v h]
+  exact (verify_iff _ _ _).2 hv
+
+/-- Guardian lists with repeated addresses: a signature is accepted at EVERY position that holds the address it recovers to —
+the first as well as the last. -/
+theorem claimed_position_accepted (recover : Bytes → Option Addr) (addrs : List Addr) (i : Nat) (sg : Bytes) (a : Addr)
+    (hr : recover sg = some a) (hi : addrs[i]? = some a) :
+    verifySignatures recover [⟨i, sg⟩] addrs = true := by
+  apply (verify_iff _ _ _).2
+  have hlt : i < addrs.length := by
+    rcases Nat.lt_or_ge i addrs.length with h | h
+    · exact h
+    · rw [List.getElem?_eq_none h] at hi; cases hi
+  refine ⟨?_, by simp, by simp⟩
+  intro s hs
+  simp at hs; subst hs
+  exact ⟨hlt, by simp [hr, hi]⟩
+
+/-- … but claiming two positions of one address counts that guardian twice and is rejected. -/
+theorem repeated_address_twice_rejected (recover : Bytes → Option Addr) (addrs : List Addr) (i j : Nat) (s₁ s₂ : Bytes)
+    (h : recover s₁ = recover s₂) : verifySignatures recover [⟨i, s₁⟩, ⟨j, s₂⟩] addrs = false := by
+  apply Bool.eq_false_iff.mpr
+  intro hv
+  have h3 := ((verify_iff _ _ _).1 hv).2.2
+  simp at h3
+  exact h3 h
+
+def recA : Bytes → Option Addr := fun s => match s with
+  | [10] => some [0xA] | [11] => some [0xB] | _ => none
+example : verifySignatures recA [⟨0, [10]⟩] [[0xA], [0xB], [0xA]] = true := claimed_position_accepted recA _ 0 [10] [0xA] rfl rfl
+example : verifySignatures recA [⟨2, [10]⟩] [[0xA], [0xB], [0xA]] = true := claimed_position_accepted recA _ 2 [10] [0xA] rfl rfl
+example : verifySignatures recA [⟨0, [10]⟩, ⟨1, [11]⟩] [[0xA], [0xB], [0xA]] = true := by decide
+example : verifySignatures recA [⟨0, [10]⟩, ⟨2, [10]⟩] [[0xA], [0xB], [0xA]] = false := repeated_address_twice_rejected recA _ 0 2 [10] [10] rfl
 
 end Whv.C06
